@@ -30,4 +30,4 @@ for n in (2, 0):
     sim = DummySimulator().simulate(scene, maxSteps=6, maxIterations=1)
     print(f"terminate when t >= {n}:",
           "rejected" if sim is None else f"accepted, ran {sim.currentTime} steps")
-print("expected: accepted after 3 steps (Sub ends at step 2, Main waits once); accepted after 1 step")
+print("expected: accepted, ran 3 steps (Sub ends in step 2, Main waits once); accepted, ran 1 step")
